@@ -137,6 +137,8 @@ def run(ck, facts, tier, only=None):
     if only is not None:
         return
     if only is None:
+        from rules import pywrap
+        pywrap.run_gradient_wrappers(ck, facts)
         # "the product rule applied to manifolds reproduces second derivatives of a product": the product is Dual2 * Dual2 on numbers aligned by name — the
         # operator rules (C02 R02.1) and the alignment rules (C03) are necessary conditions of the statement
         from rules import deps
